@@ -42,6 +42,24 @@ def run(ctx):
         for pl in ([pal[0]] if k % 3 else [pal[0], pal[1 + k % (len(pal) - 1)]]):
             cases.append({"rec": {k: v for k, v in r.items() if k != "only_polygon"}, "pl": pl.to_json(),
                           "only_polygon": bool(r.get("only_polygon"))})
+    # long cycles: the named polygons with two entries exchanged (MC_Ctor2), in every cyclic shift and both directions (the verdict
+    # does not depend on the labelling; what a sweep line does with it does)
+    nrecs = ce.emit_named(ctx)
+    ctx.extra["named_cycles_classified"] = {v: sum(1 for r in nrecs if r["pv"] == v) for v in ("valid", "invalid", "unclear")}
+    for r in nrecs:
+        if r["pv"] == "unclear":
+            continue
+        n = len(r["v"])
+        k0 = h(r["v"], ctx.seed)
+        shifts = range(n) if not quick else sorted({(k0 + 3 * j) % n for j in range(4)})
+        for sft in shifts:
+            for rev in (False, True):
+                v = r["v"][sft:] + r["v"][:sft]
+                if rev:
+                    v = v[::-1]
+                pal = palette(3, ctx.tier)
+                pl = pal[0] if (k0 + sft + rev) % 3 else pal[1 + (k0 + sft) % (len(pal) - 1)]
+                cases.append({"rec": dict(r, v=v, ccw=[]), "pl": pl.to_json(), "only_polygon": True})
     results = pmap(ce.eval_planar, cases)
     for case, (mism, stats) in zip(cases, results):
         ctx.case((json.dumps(case["rec"]["v"]), json.dumps(case["pl"])), nontrivial=len(case["rec"]["v"]) > 3,
